@@ -21,6 +21,7 @@ package asm
 
 import (
 	"github.com/llir/ll/ast"
+	"github.com/llir/llvm/internal/enc"
 	"github.com/llir/llvm/ir"
 	"github.com/llir/llvm/ir/types"
 	"github.com/llir/llvm/ir/value"
@@ -95,6 +96,35 @@ func (fgen *funcGen) createLocals(oldBlocks []ast.BasicBlock) error {
 	// based on return type. This is done by fgen.newLocals.
 	if err := fgen.f.AssignIDs(); err != nil {
 		return errors.WithStack(err)
+	}
+	// An ID written in the source must be the ID its value received. AssignIDs
+	// takes ID 0 for "not yet assigned", so a repeated or misplaced %0 would
+	// otherwise be renumbered silently (and its uses bound to another value).
+	for i, oldBlock := range oldBlocks {
+		block := fgen.f.Blocks[i]
+		if n, ok := oldBlock.Name(); ok {
+			if want := labelIdent(n); want.IsUnnamed() && want.LocalID != block.ID() {
+				return errors.Errorf("invalid local ID in function %q, expected %s, got %s", fgen.f.Ident(), enc.LocalID(block.ID()), enc.LocalID(want.LocalID))
+			}
+		}
+		for j, oldInst := range oldBlock.Insts() {
+			def, ok := oldInst.(*ast.LocalDefInst)
+			if !ok {
+				continue
+			}
+			want := localIdent(def.Name())
+			got, ok := block.Insts[j].(local)
+			if ok && want.IsUnnamed() && want.LocalID != got.ID() {
+				return errors.Errorf("invalid local ID in function %q, expected %s, got %s", fgen.f.Ident(), enc.LocalID(got.ID()), enc.LocalID(want.LocalID))
+			}
+		}
+		if def, ok := oldBlock.Term().(*ast.LocalDefTerm); ok {
+			want := localIdent(def.Name())
+			got, ok := block.Term.(local)
+			if ok && want.IsUnnamed() && want.LocalID != got.ID() {
+				return errors.Errorf("invalid local ID in function %q, expected %s, got %s", fgen.f.Ident(), enc.LocalID(got.ID()), enc.LocalID(want.LocalID))
+			}
+		}
 	}
 	// Index local identifiers.
 	return fgen.indexLocals()
